@@ -227,6 +227,7 @@ static std::map<std::string, Opm::Dimension> lib_named(int sys) { UnitSystem us(
 
 // ================================================================ part a ====
 static const double VALS[] = {0.0, 1.0, -3.5, 1e-7, 2.5e9};
+static const double VALS_T[] = {-1.0, 273.15, 459.67, 1e-30, 1e30, -2.5e-12, 14.695948775513449, 0.1, 1e15, 5.0 / 9.0};   // thorough tier, scalar round trip only
 
 // physical check of one measure; dry: only count mismatches
 static int phys_measure(int sys, int mi, bool dry, const std::string& c) {
@@ -271,6 +272,13 @@ static void case_a(int sys, int mi, const std::string& c) {
         if (!(std::fabs(d.convertRawToSi(x) - y) <= 2 * EPS * (std::fabs(y) + std::fabs(o))) || !(std::fabs(d.convertSiToRaw(x) - z) <= 8 * EPS * (std::fabs(z) + std::fabs(o / f))))
             R->violation(key + ":getDimension", std::string(SYSN[sys]) + " " + mname(mi) + ": getDimension(m) (factor " + vf::fmt17(f) + ", offset " + vf::fmt17(o) + ") disagrees with to_si/from_si tables at x=" + vf::fmt17(x), rp(c));
         obs += ":" + vf::fmt17(y) + ":" + vf::fmt17(z);
+    }
+    if (R->thorough()) for (double x : VALS_T) {
+        R->evaluations++;
+        const double tol = 8 * EPS * (std::fabs(x) + std::fabs(o) + std::fabs(o / f));
+        double xb = us.from_si(m, us.to_si(m, x)), xc = us.to_si(m, us.from_si(m, x));
+        if (!(std::fabs(xb - x) <= tol) || !(std::fabs(xc - x) <= tol)) R->violation(key, std::string(SYSN[sys]) + " " + mname(mi) + ": round trip of " + vf::fmt17(x) + " gives " + vf::fmt17(xb) + " / " + vf::fmt17(xc), rp(c));
+        obs += ":" + vf::fmt17(xb);
     }
     R->observe(obs);
     R->count("a_cases");
@@ -502,6 +510,7 @@ struct RecLine { std::string text; std::vector<Expect> ex; };
 
 static std::string num17(double x) { return vf::fmt17(x); }
 
+static int g_variant = 0;      // value set: 0 positive O(1), 1 small negative, 2 large
 static RecLine gen_record(const Opm::ParserRecord& rec, int sys, bool defaults, int& ordinal) {
     RecLine L; L.text = " ";
     for (const auto& it : rec) {
@@ -529,7 +538,9 @@ static RecLine gen_record(const Opm::ParserRecord& rec, int sys, bool defaults, 
             if (!act.ok || act.offset_in_composite) { e.kind.push_back('x'); e.si.push_back(0); e.raw.push_back(0.5); if (!dflt) L.text += "0.5 "; continue; }
             if (act.nan) { e.kind.push_back('c'); e.si.push_back(0); e.raw.push_back(0.5); if (!dflt) L.text += "0.5 "; continue; }
             if (dflt) { e.kind.push_back('d'); e.si.push_back(met.to_si(dv)); e.raw.push_back(dv); continue; }
-            double v = 0.75 + 0.5 * ordinal + 0.125 * j + (act.o != 0 ? 300.0 : 0.0);
+            double v = 0.75 + 0.5 * ordinal + 0.125 * j;
+            if (g_variant == 1) v *= -1.0e-4; else if (g_variant == 2) v *= 3.0e7;
+            if (act.o != 0) v += 300.0;
             double raw = act.from_si(v);
             // the text is what the deck says; the SI value the text means is recomputed from the parsed-back number
             std::string t = num17(raw); raw = std::strtod(t.c_str(), nullptr);
@@ -543,7 +554,7 @@ static RecLine gen_record(const Opm::ParserRecord& rec, int sys, bool defaults, 
     return L;
 }
 
-struct Inst { std::string text; std::vector<RecLine> recs; std::string why; bool ok = false; };
+struct Inst { std::string text; std::vector<RecLine> recs; std::string why; bool ok = false; size_t nkw = 2; };
 
 static Inst instantiate(const Opm::ParserKeyword& kw, const std::string& deckname, int sys, bool defaults) {
     Inst I; int ord = 0;
@@ -557,11 +568,22 @@ static Inst instantiate(const Opm::ParserKeyword& kw, const std::string& decknam
     else if (st == Opm::SLASH_TERMINATED || st == Opm::UNKNOWN) { size_t n = std::max<size_t>(2, nrec); for (size_t i = 0; i < n; ++i) add(i); I.text += "/\n"; }
     else if (st == Opm::DOUBLE_SLASH_TERMINATED) { add(0); add(1); I.text += "/\n/\n"; }
     else if (st == Opm::OTHER_KEYWORD_IN_DECK) {
+        // put the sizing keyword into the deck so that exactly n = 2 records/tables are expected
         const auto& ks = kw.getKeywordSize();
         int n = 1;
-        try { const auto& skw = g_parser->getKeyword(ks.keyword()); n = skw.getRecord(0).get(ks.item()).getDefault<int>() + ks.size_shift(); } catch (...) { n = 1; }
+        try {
+            const auto& skw = g_parser->getKeyword(ks.keyword());
+            const auto& srec = skw.getRecord(0);
+            size_t pos = 0; bool found = false;
+            for (const auto& it : srec) { if (it.name() == ks.item()) { found = true; break; } ++pos; }
+            if (found && srec.get(pos).dataType() == Opm::type_tag::integer && 2 - ks.size_shift() >= 1) {
+                n = 2;
+                I.text = std::string(SYSN[sys]) + "\n" + ks.keyword() + "\n " + (pos ? std::to_string(pos) + "* " : "") + std::to_string(2 - ks.size_shift()) + " /\n" + deckname + "\n";
+                I.nkw = 3;
+            } else n = srec.get(ks.item()).getDefault<int>() + ks.size_shift();
+        } catch (...) { n = 1; }
         if (n < 1) n = 1;
-        if (kw.isTableCollection()) { I.why = "table collection"; for (int t = 0; t < n; ++t) { add(0); add(0); I.text += "/\n"; } }
+        if (kw.isTableCollection()) { for (int t = 0; t < n; ++t) { add(0); add(0); I.text += "/\n"; } }
         else if (kw.isAlternatingKeyword()) { for (int t = 0; t < n; ++t) for (size_t i = 0; i < nrec; ++i) { RecLine L = gen_record(kw.getRecord(i), sys, defaults, ord); I.text += L.text; I.recs.push_back(std::move(L)); } }
         else for (int t = 0; t < n; ++t) add(t);
     } else { I.why = "size type not handled"; return I; }
@@ -590,13 +612,14 @@ static long check_keyword(const std::string& kwname, int sys, bool defaults, con
     std::unique_ptr<Opm::Deck> deck;
     try { deck = std::make_unique<Opm::Deck>(g_parser->parseString(I.text, lenient_context(), eg)); eg.clear(); }
     catch (const std::exception& e) { eg.clear(); why = std::string("parse: ") + std::string(e.what()).substr(0, 160); return -3; }
-    if (deck->size() != 2) { why = "deck has " + std::to_string(deck->size()) + " keywords"; return -3; }
-    const auto& dk = (*deck)[1];
-    // table collections keep the terminating empty records: match the generated lines to the non-empty records in order
+    if (deck->size() != I.nkw) { why = "deck has " + std::to_string(deck->size()) + " keywords"; return -3; }
+    const auto& dk = (*deck)[I.nkw - 1];
+    // table collections / double-record keywords keep the terminating empty records: match the generated lines to the non-empty records in order
     std::vector<const Opm::DeckRecord*> drs;
-    for (size_t j = 0; j < dk.size(); ++j) { const auto& r = dk.getRecord(j); bool any = false; for (const auto& it : r) if (it.data_size() > 0) any = true; if (any || !kw.isTableCollection()) drs.push_back(&r); }
+    for (size_t j = 0; j < dk.size(); ++j) { const auto& r = dk.getRecord(j); bool any = r.size() > 0; for (const auto& it : r) if (it.data_size() == 0) any = false; if (any || !(kw.isTableCollection() || kw.isDoubleRecordKeyword())) drs.push_back(&r); }
     if (drs.size() != I.recs.size()) { why = "record count " + std::to_string(drs.size()) + " != generated " + std::to_string(I.recs.size()); return -3; }
     long compared = 0;
+    if (sys == 0 && !defaults && g_variant == 0) { std::set<std::string> names; for (auto& L : I.recs) for (auto& e : L.ex) names.insert(e.item); R->count("d_items_with_dimension_checked", (long long)names.size()); }
     for (size_t j = 0; j < drs.size(); ++j) for (const auto& e : I.recs[j].ex) {
         const std::string key = "C02:deck:" + kwname + ":" + e.item + ":" + SYSN[sys];
         const std::string where = kwname + " record " + std::to_string(j) + " item " + e.item + " (" + SYSN[sys] + (defaults ? ", defaults" : "") + ")";
@@ -658,9 +681,9 @@ static long check_keyword(const std::string& kwname, int sys, bool defaults, con
 static void case_d(const std::string& kwname, int sys, bool defaults, const std::string& c) {
     std::string why;
     long n = check_keyword(kwname, sys, defaults, c, why);
-    if (n >= 0) { R->count("d_keyword_instances_checked"); R->count("d_elements_compared", n); if (sys == 0 && !defaults) R->count("d_keywords_checked"); return; }
+    if (n >= 0) { R->count("d_keyword_instances_checked"); R->count("d_elements_compared", n); if (sys == 0 && !defaults && g_variant == 0) R->count("d_keywords_checked"); return; }
     if (n == -1) return;
-    if (sys == 0 && !defaults) { R->count(n == -2 ? "d_keywords_skipped_not_instantiable" : "d_keywords_skipped_instance_rejected"); R->notes["d_skipped:" + kwname] = why; }
+    if (sys == 0 && !defaults && g_variant == 0) { R->count(n == -2 ? "d_keywords_skipped_not_instantiable" : "d_keywords_skipped_instance_rejected"); R->notes["d_skipped:" + kwname] = why; }
     else {
         // the same shape parsed in METRIC but not here?  (checked by re-running METRIC)
         std::string w2; long m = check_keyword(kwname, 0, defaults, c, w2);
@@ -910,9 +933,9 @@ static void case_e(const std::string& c) {
                 };
                 cmpv("PORO", fp.get_double("PORO"), S.poro); cmpv("NTG", fp.get_double("NTG"), S.ntg);
                 cmpv("PERMX", fp.get_double("PERMX"), S.permx); cmpv("PERMZ", fp.get_double("PERMZ"), S.permz);
-                cmpv("DX", fp.get_double("DX"), S.dx); cmpv("PORV", fp.porv(true), S.porv);
+                cmpv("PERMY", fp.get_double("PERMY"), S.permy); cmpv("PORV", fp.porv(true), S.porv);
                 const auto& grid = es.getInputGrid();
-                for (size_t g = 0; g < 27; ++g) { cmp("grid", "volume[" + std::to_string(g) + "]", grid.getCellVolume(g), S.dx[g] * S.dy[g] * S.dz[g]); cmp("grid", "depth[" + std::to_string(g) + "]", grid.getCellDepth(g), 2000.0 + (g / 9 == 0 ? 2.5 : g / 9 == 1 ? 8.0 : 14.5)); }
+                for (size_t g = 0; g < 27; ++g) { auto dm = grid.getCellDims(g); cmp("grid", "DX[" + std::to_string(g) + "]", dm[0], S.dx[g]); cmp("grid", "DY[" + std::to_string(g) + "]", dm[1], S.dy[g]); cmp("grid", "DZ[" + std::to_string(g) + "]", dm[2], S.dz[g]); cmp("grid", "volume[" + std::to_string(g) + "]", grid.getCellVolume(g), S.dx[g] * S.dy[g] * S.dz[g]); cmp("grid", "depth[" + std::to_string(g) + "]", grid.getCellDepth(g), 2000.0 + (g / 9 == 0 ? 2.5 : g / 9 == 1 ? 8.0 : 14.5)); }
             }
             // --- Schedule (never copied or moved)
             auto sched = std::make_unique<Opm::Schedule>(deck, es, std::make_shared<Opm::Python>());
@@ -967,7 +990,7 @@ static void do_case(const std::string& c) {
     else if (w[0] == "c" && w.size() == 3) case_c(sys_of(w[1]), w[2], c);
     else if (w[0] == "c2" && w.size() == 3) case_c2(sys_of(w[1]), w[2], c);
     else if (w[0] == "o" && w.size() == 3) case_o(sys_of(w[1]), std::atoi(w[2].c_str()), c);
-    else if (w[0] == "d" && w.size() == 4) case_d(w[1], sys_of(w[2]), w[3] == "defaults", c);
+    else if (w[0] == "d" && w.size() == 4) { g_variant = w[3].rfind("values", 0) == 0 && w[3].size() > 6 ? std::atoi(w[3].c_str() + 6) : 0; case_d(w[1], sys_of(w[2]), w[3] == "defaults", c); }
     else if (w[0] == "n") case_n(c);
     else if (w[0] == "e") case_e(c);
     else throw std::runtime_error("bad case string: " + c);
@@ -1006,7 +1029,10 @@ int main(int argc, char** argv) {
     go("e");
     for (auto& kw : g_keywords) {
         if (!KW(kw).hasDimension()) continue;
-        for (int s = 0; s < 4; ++s) for (int dm = 0; dm < 2; ++dm) go("d " + kw + " " + SYSN[s] + (dm ? " defaults" : " values"));
+        for (int s = 0; s < 4; ++s) {
+            go("d " + kw + " " + SYSN[s] + " values"); go("d " + kw + " " + SYSN[s] + " defaults");
+            if (run.thorough()) { go("d " + kw + " " + SYSN[s] + " values1"); go("d " + kw + " " + SYSN[s] + " values2"); }
+        }
     }
     if (run.shard == 0) {
         run.count("catalogue_keywords", (long long)g_keywords.size());
